@@ -4,7 +4,7 @@
     only if it was [Waiting] before or the task is in the trigger set [T] (the ids a worker gives
     back in the message being processed); or it is a new task (set [N]).
     This file: the reactor. *)
-From HQ Require Import Base.Prelude Cluster.Types Cluster.Core Cluster.Reactor Cluster.Worker Cluster.Server Cluster.Sys Cluster.ProofsJob Cluster.ProofsMore Cluster.ProofsStep Cluster.BijBase Cluster.BijCore Cluster.BijHq Cluster.BijSt Cluster.InvWBase Cluster.InvWX1.
+From HQ Require Import Base.Prelude Cluster.Types Cluster.Core Cluster.Reactor Cluster.Worker Cluster.Server Cluster.Sys Cluster.ProofsJob Cluster.ProofsMore Cluster.ProofsStep Cluster.BijBase Cluster.BijCore Cluster.BijHq Cluster.BijSt Cluster.BijReact Cluster.InvWBase Cluster.InvWX1.
 From Coq Require Import ZArith Lia Sorting.Sorted.
 Local Open Scope N_scope.
 
@@ -73,7 +73,7 @@ Ltac tt_set :=
               [ reflexivity | exact (find_in _ _ _ H) | reflexivity
               | cbn [t_inst with_state with_inst with_crash with_consumers with_deps]; lia
               | cbn [t_inst t_state t_id is_waiting with_state with_inst with_crash with_consumers with_deps]; intros;
-                first [ discriminate | lia | left; assumption | left; unfold is_waiting in *; assumption | auto ] ] ]
+                first [ discriminate | lia | left; assumption | left; unfold is_waiting; match goal with E : t_state _ = _ |- _ => rewrite E; reflexivity end | auto ] ] ]
   end.
 
 Section Pass.
@@ -135,13 +135,13 @@ Proof.
   - discriminate.
 Qed.
 
-Lemma remove_consumer_from_T deps : forall ts cid ts', remove_consumer_from ts deps cid = Ok ts' ->
-  forall t', In t' ts' -> exists t, In t ts /\ t_id t = t_id t' /\ t_state t = t_state t'.
+Lemma remove_consumer_from_T2 deps : forall ts cid ts', remove_consumer_from ts deps cid = Ok ts' ->
+  forall t', In t' ts' -> exists t, In t ts /\ t_id t = t_id t' /\ t_state t = t_state t' /\ t_inst t = t_inst t'.
 Proof.
   induction deps as [|d r IH]; cbn [remove_consumer_from]; intros ts cid ts' H t' Hin; [inversion H; subst; eauto|].
   destruct (find_task ts d) as [input|] eqn:Ef; [|eapply IH; eassumption].
   destruct (tid_mem cid (t_consumers input)); [|discriminate].
-  destruct (IH _ _ _ H t' Hin) as (t1 & H1 & Ei & Es).
+  destruct (IH _ _ _ H t' Hin) as (t1 & H1 & Ei & Es & En).
   destruct (set_task_in _ _ _ H1) as [->|Hin1]; [|eauto].
   exists input. split; [eapply find_in; exact Ef | auto].
 Qed.
@@ -149,17 +149,16 @@ Qed.
 Lemma remove_task_TT c id c' stt : remove_task c id = Ok (c', stt) -> TT T N c c'.
 Proof.
   intros H. unfold remove_task in H. destruct (find_task (c_tasks c) id) as [t|]; [|discriminate].
-  assert (R0 : forall c1, c_tasks c1 = del_task (c_tasks c) id -> c_workers c1 = c_workers c -> TT T N c c1).
-  { intros c1 E Ew. split; [|apply Dm_eq; exact Ew]. intros t' Hin. rewrite E in Hin. left. exists t'. split; [eapply del_task_in; exact Hin | auto]. }
+  assert (R0 : forall c1, c_tasks c1 = del_task (c_tasks c) id -> TT T N c c1).
+  { intros c1 E. apply TT_sub. intros t' Hin. rewrite E in Hin. exists t'. split; [eapply del_task_in; exact Hin | auto]. }
   destruct (t_state t); try (inversion H; subst; apply R0; reflexivity).
   apply bind_ok in H. destruct H as (c2 & H2 & H).
-  assert (E2 : c_tasks c2 = del_task (c_tasks c) id /\ c_workers c2 = c_workers c).
+  assert (T2 : c_tasks c2 = del_task (c_tasks c) id).
   { destruct (N.eqb unfinished_deps 0); [inv_binds H2|]; inversion H2; subst; auto. }
-  destruct E2 as [T2 W2].
   destruct (N.ltb 0 unfinished_deps); [|inversion H; subst; apply R0; assumption].
   apply bind_ok in H. destruct H as (ts & Hr & H). inversion H; subst.
   eapply TT_trans; [apply (R0 c2); assumption|].
-  split; [|apply Dm_eq; reflexivity]. intros t' Hin. left. eapply remove_consumer_from_T; [exact Hr | exact Hin].
+  apply TT_sub. intros t' Hin. eapply remove_consumer_from_T2; [exact Hr | exact Hin].
 Qed.
 
 Lemma remove_tasks_batched_TT ids : forall c c', remove_tasks_batched c ids = Ok c' -> TT T N c c'.
@@ -234,7 +233,7 @@ Lemma wake_consumers_TT csm : forall c ret c' ret', wake_consumers c csm ret = O
 Proof.
   induction csm as [|x r IH]; cbn [wake_consumers]; intros c ret c' ret' H; [inversion H; subst; apply TT_refl|].
   apply bind_ok in H. destruct H as (t & Ht & H).
-  destruct (t_state t) as [n| | | | | |]; try discriminate. destruct (N.eqb n 0); [discriminate|].
+  destruct (t_state t) as [n| | | | | |] eqn:Est; try discriminate. destruct (N.eqb n 0); [discriminate|].
   assert (R1 : forall qs, TT T N c (with_queues (upd_task c (with_state t (Waiting (n - 1)))) qs)).
   { intros qs. tt_set. }
   destruct (N.eqb (n - 1) 0).
@@ -245,14 +244,14 @@ Qed.
 Lemma task_finished_TT s w id s' b : task_finished s w id = Ok (s', b) -> TT T N (core_of s) (core_of s').
 Proof.
   intros H. unfold task_finished in H.
-  destruct (find_task (c_tasks (core_of s)) id) as [t|]; [|inversion H; subst; apply TT_refl].
+  destruct (find_task (c_tasks (core_of s)) id) as [t|] eqn:Ef; [|inversion H; subst; apply TT_refl].
   apply bind_ok in H. destruct H as (rq & ?X & H). apply bind_ok in H. destruct H as (c1 & H1 & H).
-  assert (R1 : TT T N (core_of s) c1).
+  assert (Et : c_tasks c1 = c_tasks (core_of s)).
   { destruct (t_state t); try discriminate.
-    - destruct (negb (N.eqb w0 w)); [discriminate|]. inv_binds H1. inversion H1; subst. apply TT_tasks; reflexivity.
-    - destruct (negb (N.eqb w0 w)); [discriminate|]. eapply try_remove_redirection_TT; exact H1.
-    - destruct (negb (N.eqb w0 w)); [discriminate|]. inv_binds H1. inversion H1; subst. apply TT_tasks; reflexivity.
-    - destruct ws; [discriminate|]. destruct (N.eqb w0 w); [|discriminate]. eapply reset_mn_workers_TT; exact H1. }
+    - destruct (negb (N.eqb w0 w)); [discriminate|]. inv_binds H1. inversion H1; reflexivity.
+    - destruct (negb (N.eqb w0 w)); [discriminate|]. eapply try_remove_redirection_tasks; exact H1.
+    - destruct (negb (N.eqb w0 w)); [discriminate|]. inv_binds H1. inversion H1; reflexivity.
+    - destruct ws; [discriminate|]. destruct (N.eqb w0 w); [|discriminate]. eapply reset_mn_workers_tasks; exact H1. }
   cbv zeta in H.
   apply bind_ok in H. destruct H as (s1 & Hf & H).
   destruct (process_task_finished_active _ _ _ Hf) as [C1 _]. unfold core_same in C1. cbn in C1.
@@ -261,8 +260,9 @@ Proof.
   apply bind_ok in H. destruct H as ([c4 stt] & Hrm & H).
   destruct stt; try discriminate. inversion H; subst.
   change (TT T N (core_of s) c4).
-  eapply TT_trans; [exact R1|].
-  eapply TT_trans; [tt_set|].
+  eapply TT_trans; [apply (TT_tasks (core_of s) c1 Et)|].
+  eapply TT_trans; [eapply (TT_set T N c1 (upd_task c1 (with_state t Finished)) (with_state t Finished) t);
+    [reflexivity | rewrite Et; exact (find_in _ _ _ Ef) | reflexivity | cbn; lia | cbn; discriminate]|].
   rewrite <- C1. eapply TT_trans; [eapply wake_consumers_TT; exact Hw|].
   eapply TT_trans; [exact (process_retracted_TT (st_core s1 c3) _ _ Hr) | eapply remove_task_TT; exact Hrm].
 Qed.
